@@ -30,8 +30,12 @@ Trees == {[k |-> "l", items |-> <<S1, S2, S3>>],                                
 Decs == {[join |-> "ij", m |-> "none", cols |-> "ij"],                         \* presync(f)
          [join |-> "oj", m |-> "bfill", cols |-> "ij"],
          [join |-> "lj", m |-> "none", cols |-> "oj"]}
-Overrides == {[join |-> j, m |-> mm, cols |-> c] : j \in (IF Depth <= 2 THEN {"-", "oj", "rj"} ELSE {"-", "oj"}), mm \in {"-", "ffill", "none"},
-                                                    c \in (IF Depth <= 2 THEN {"-", "oj", "lj"} ELSE {"-", "oj"})}
+\* (the deeper the histories, the fewer overrides per call)
+Overrides == IF Depth <= 3
+             THEN {[join |-> j, m |-> mm, cols |-> c] : j \in (IF Depth <= 2 THEN {"-", "oj", "rj"} ELSE {"-", "oj"}), mm \in {"-", "ffill", "none"},
+                                                        c \in (IF Depth <= 2 THEN {"-", "oj", "lj"} ELSE {"-", "oj"})}
+             ELSE {NoOverride, [NoOverride EXCEPT !.join = "oj"], [NoOverride EXCEPT !.m = "ffill"], [NoOverride EXCEPT !.cols = "oj"],
+                   [join |-> "rj", m |-> "none", cols |-> "lj"]}
 
 Init == tree \in Trees /\ dec \in Decs /\ objs = <<dec>> /\ hist = <<>>
 Call(f, ov) == /\ Len(hist) < Depth
